@@ -30,6 +30,8 @@ type C16Case struct {
 	Header    bool        `json:"header"`
 	Sort      bool        `json:"sort"`
 	Fill      bool        `json:"fill"`
+	// FaultIndex: which of the summed files the corrupt-src fault damages (sum / sum-copy / sum-diff)
+	FaultIndex int `json:"fault_index,omitempty"`
 }
 
 func runC16(c C16Case, ev *Evid) (fs []Finding) {
@@ -56,10 +58,19 @@ func runC16(c C16Case, ev *Evid) (fs []Finding) {
 				os.Remove(filepath.Join(srcBase, f.Dir, f.Name))
 			}
 		}
+	case "dangling-link-src":
+		// a name the file pattern matches but that cannot be opened (a link whose target is gone; a file removed
+		// after the listing looks the same to the command)
+		os.Symlink("gone-target.wsp", filepath.Join(srcBase, first.Dir, "zz-gone.wsp"))
 	case "corrupt-src":
-		os.WriteFile(filepath.Join(srcBase, firstRel), c.Corrupt, 0644)
+		rel := firstRel
+		if c.FaultIndex > 0 && c.FaultIndex < len(c.Files) && (c.Cmd == "sum" || c.Cmd == "sum-copy" || c.Cmd == "sum-diff") {
+			// (the k-th of the summed files, not the first)
+			rel = c.Files[c.FaultIndex].Dir + "/" + c.Files[c.FaultIndex].Name
+		}
+		os.WriteFile(filepath.Join(srcBase, rel), c.Corrupt, 0644)
 	}
-	globDiff := c.Cmd == "diff" && len(c.Files) > 1 && c.DestMode != "absent" && c.Fault != "missing-src" && c.Fault != "corrupt-src" && c.Fault != "corrupt-dest" && c.Fault != "layout-mismatch-dest"
+	globDiff := c.Cmd == "diff" && len(c.Files) > 1 && c.DestMode != "absent" && c.Fault != "missing-src" && c.Fault != "corrupt-src" && c.Fault != "corrupt-dest" && c.Fault != "layout-mismatch-dest" && c.Fault != "pattern-matches-dirs"
 	// two runs: the baseline (text-out to a regular file, no text-out fault) and the faulty one
 	type runResult struct {
 		err     error
@@ -139,12 +150,17 @@ func runC16(c C16Case, ev *Evid) (fs []Finding) {
 			cc = &cmd.ViewRawCommand{SrcBase: srcBase, SrcRelPath: firstRel, From: from, Until: unt, ArchiveID: c.ArchiveID, ShowHeader: c.Header, SortsByTime: c.Sort, TextOut: to}
 		case "diff":
 			cc = &cmd.DiffCommand{SrcBase: srcBase, SrcRelPath: firstRel, DestBase: effDest, From: from, Until: unt, ArchiveID: c.ArchiveID, TextOut: to}
-			if globDiff {
+			if c.Fault == "pattern-matches-dirs" {
+				cc.(*cmd.DiffCommand).SrcRelPath = "s?"
+			} else if globDiff {
 				// several source files, a destination only for the last one: every earlier file is "missing on
 				// the destination side" and the run must not end clean
 				cc.(*cmd.DiffCommand).SrcRelPath = first.Dir + "/*.wsp"
 			}
 		case "copy":
+			if c.Fault == "pattern-matches-dirs" {
+				firstRel = "s?" // matches the item directory s1, no file
+			}
 			cc = &cmd.CopyCommand{SrcBase: srcBase, SrcRelPath: firstRel, DestBase: effDest, AggregationMethod: wt.AggregationMethod(l.Method), XFilesFactor: l.XFF, ArchiveInfoList: wtArchives(l), From: from, Until: unt, ArchiveID: c.ArchiveID, CopyNaN: c.CopyNaN, TextOut: to}
 		case "sum":
 			cc = &cmd.SumCommand{SrcBase: srcBase, ItemPattern: first.Dir, SrcPattern: "*.wsp", From: from, Until: unt, ArchiveID: c.ArchiveID, ShowHeader: c.Header, TextOut: to}
@@ -208,6 +224,12 @@ func runC16(c C16Case, ev *Evid) (fs []Finding) {
 	// ---- (1) a nil return implies the command's effect (baseline run)
 	idBad := c.Cmd != "generate" && (c.ArchiveID < -1 || c.ArchiveID >= len(l.Archives))
 	srcBad := (c.Fault == "missing-src" || c.Fault == "corrupt-src") && c.Cmd != "generate"
+	if c.Fault == "dangling-link-src" && (c.Cmd == "sum" || c.Cmd == "sum-copy" || c.Cmd == "sum-diff" || globDiff) {
+		srcBad = true
+	}
+	if c.Fault == "pattern-matches-dirs" && (c.Cmd == "copy" || c.Cmd == "diff") {
+		srcBad = true
+	}
 	lm := layoutMap(srcBase, c.Files)
 	if base.err == nil {
 		switch {
@@ -449,7 +471,7 @@ func genC16(t *rapid.T) C16Case {
 	case r < 6:
 		c.ArchiveID = rapid.SampledFrom([]int{len(l.Archives), len(l.Archives) + 1, -2, 100}).Draw(t, "badArchive")
 	}
-	c.Fault = rapid.SampledFrom([]string{"none", "none", "none", "textout-nodir", "textout-isdir", "textout-devfull", "missing-src", "corrupt-src", "corrupt-dest", "dest-notdir", "dest-proc", "dest-readonly", "layout-mismatch-dest", "layout-mismatch-src"}).Draw(t, "fault")
+	c.Fault = rapid.SampledFrom([]string{"none", "none", "none", "textout-nodir", "textout-isdir", "textout-devfull", "missing-src", "corrupt-src", "corrupt-dest", "dest-notdir", "dest-proc", "dest-readonly", "layout-mismatch-dest", "layout-mismatch-src", "dangling-link-src", "pattern-matches-dirs"}).Draw(t, "fault")
 	if c.Fault == "layout-mismatch-src" {
 		// one of the summed files has another layout (a longer last archive, one archive fewer, or one more)
 		if len(c.Files) < 2 {
@@ -487,6 +509,9 @@ func genC16(t *rapid.T) C16Case {
 			c.Corrupt[3] = 0x7f
 		}
 	}
+	if c.Fault == "corrupt-src" && len(c.Files) > 1 {
+		c.FaultIndex = rapid.IntRange(0, len(c.Files)-1).Draw(t, "faultIndex")
+	}
 	c.CopyNaN = rapid.Bool().Draw(t, "copyNaN")
 	c.Header = rapid.Bool().Draw(t, "header")
 	c.Sort = rapid.Bool().Draw(t, "sort")
@@ -498,7 +523,7 @@ func TestC16(t *testing.T) {
 	RunProperty(t, Property[C16Case]{
 		NoteCases:   true,
 		ID:          "C16",
-		Rule:        "rapid-generated invocations of all eight subcommands x archive selection (all / each id / out of range) x window (default, narrow, past, future, beyond the finest retention, degenerate) x copy-nan / header / sort / fill x destination absent / identical / perturbed x environment fault (none, text-out below a missing directory, text-out = a directory, text-out = /dev/full, source missing, source corrupt, destination base below a regular file, destination base under /proc, existing destination of another layout, a summed source file of another layout, read-only destination tree with the command run under the effective uid of 'nobody'), at a controlled clock. Each case runs a baseline (no text-out / destination fault) and, for those faults, the faulty run. Oracle: no panic escapes Execute; a nil return of the baseline implies the effect (view/sum: the expected point records; view-raw: all physical slots for the default range; copy/sum-copy: destination holds the source's / the sum's values; diff/sum-diff: no differing slot exists; generate: file with the requested header) and is impossible with an out-of-range archive id or a missing/corrupt source; the faulty run must fail when the text output cannot be opened, when a non-empty output cannot be written, or when the destination cannot be created. Non-trivial: a fault or a non-default selection/window is present. Distinct = hash of the case.",
+		Rule:        "rapid-generated invocations of all eight subcommands x archive selection (all / each id / out of range) x window (default, narrow, past, future, beyond the finest retention, degenerate) x copy-nan / header / sort / fill x destination absent / identical / perturbed x environment fault (none, text-out below a missing directory, text-out = a directory, text-out = /dev/full, source missing, source corrupt, destination base below a regular file, destination base under /proc, existing destination of another layout, a summed source file of another layout, a matched name that cannot be opened (dangling link), a pattern that matches only directories, read-only destination tree with the command run under the effective uid of 'nobody'), at a controlled clock. Each case runs a baseline (no text-out / destination fault) and, for those faults, the faulty run. Oracle: no panic escapes Execute; a nil return of the baseline implies the effect (view/sum: the expected point records; view-raw: all physical slots for the default range; copy/sum-copy: destination holds the source's / the sum's values; diff/sum-diff: no differing slot exists; generate: file with the requested header) and is impossible with an out-of-range archive id or a missing/corrupt source; the faulty run must fail when the text output cannot be opened, when a non-empty output cannot be written, or when the destination cannot be created. Non-trivial: a fault or a non-default selection/window is present. Distinct = hash of the case.",
 		Assumptions: []string{"checks run as root: permission faults are produced by ENOTDIR / EISDIR / /proc / /dev/full, and by temporarily switching the effective uid to 65534 for the read-only destination"},
 		Gen:         genC16,
 		Run:         runC16,
